@@ -477,7 +477,7 @@ def run(report):
             stats["already_formatted"] += 1
         replay = {"op": "format", "src": s, "formatted": f, "origin": o}
         if "dump" not in r2:
-            report.failure("c10-formatted-does-not-compile:%s" % r2.get("error", "?"), "the formatted justfile does not compile: %s" % (r2.get("message") or r2),
+            report.failure("c10-lone-carriage-return-in-body" if re.search(r"\r(?!\n)", s) else "c10-formatted-does-not-compile:%s" % r2.get("error", "?"), "the formatted justfile does not compile: %s" % (r2.get("message") or r2),
                            dict(replay, error=r2.get("rendered")))
             continue
         d1, d2 = strip_dump(r["dump"]), strip_dump(r2["dump"])
@@ -505,7 +505,8 @@ def run(report):
                            dict(replay, before={k: d1[k] for k in diff}, after={k: d2[k] for k in diff}))
             continue
         if r2["formatted"] != f:
-            report.failure("c10-not-idempotent", "formatting the formatted text changes it again", dict(replay, again=r2["formatted"]))
+            sig = "c10-lone-carriage-return-in-body" if re.search(r"\r(?!\n)", s) else "c10-not-idempotent"
+            report.failure(sig, "formatting the formatted text changes it again", dict(replay, again=r2["formatted"]))
 
     # ---- files: --fmt --check, --fmt, modules and imports (binary) -----------------------------------
     n_files = 160 if not thorough else 2000
@@ -546,6 +547,7 @@ def run(report):
             out["dump_err"] = se.decode("utf-8", "replace")[-300:]
             rc, so, se = C.run_just(["--dump", "--dump-format", "json"], d, env=env)
             out["json"] = json.loads(so) if rc == 0 else None
+            out["json_err"] = se.decode("utf-8", "replace")[-300:]
             rc, so, se = C.run_just(["--unstable", "--fmt", "--check"], d, env=env)
             out["check_rc"] = rc
             out["after_check"] = open(path, "rb").read() == orig
@@ -587,6 +589,9 @@ def run(report):
             continue
         if o["check2_rc"] != 0:
             report.failure("c10-fmt-not-fixed-point", "--fmt --check fails right after --fmt", dict(replay, after=o["after_fmt"]))
+            continue
+        if o["json"] is None:
+            report.failure("c10-files-json-dump", "--dump succeeds but --dump --dump-format json fails: " + o.get("json_err", ""), replay, no_input=True)
             continue
         if o["json2"] is None:
             report.failure("c10-formatted-does-not-compile:files", "after --fmt the justfile does not compile: " + o["json2_err"], dict(replay, after=o["after_fmt"]))
